@@ -406,6 +406,9 @@ func (fx *Fx) runLoop(st *State, lp *loopParts) {
 	var invs, iters []*Clause
 	if lp.spec != nil {
 		invs, iters = lp.spec.Invariants, lp.spec.Iter
+		if len(lp.spec.Step) > 0 {
+			iters = append(append([]*Clause{}, iters...), lp.spec.Step...)
+		}
 	}
 	if lp.counter != "" {
 		fx.setCounter(st, lp, lp.initCtr)
@@ -536,7 +539,13 @@ func (fx *Fx) runLoop(st *State, lp *loopParts) {
 	if lp.preBody != nil {
 		lp.preBody(bodySt)
 	}
+	if lp.spec != nil && len(lp.spec.Step) > 0 {
+		fx.stepLoops = append(fx.stepLoops, &stepLoop{lp: lp, head: loopHead, depth: len(fx.ret)})
+	}
 	fx.execBlock(bodySt, lp.body.List)
+	if lp.spec != nil && len(lp.spec.Step) > 0 {
+		fx.stepLoops = fx.stepLoops[:len(fx.stepLoops)-1]
+	}
 	fx.jumps = fx.jumps[:len(fx.jumps)-1]
 	// back edges are checked one by one (the normal end of the body, then each continue / goto in source order):
 	// smaller queries than on the merged state, and per-iteration clauses may mention locals that are live on one edge only
